@@ -2,6 +2,8 @@
 import itertools
 import types
 
+import common
+
 ID = "C11"
 LEAN_MODULES = ["B2Z.Props.C11"]
 THEOREMS = [
@@ -27,7 +29,12 @@ def impl_encode(n, c, p, m):
 
 def impl_slices(n, c, p, m):
     from bio2zarr import core
-    z = types.SimpleNamespace(chunks=(c,), shape=(n,))
+    try:
+        # the PLINK path passes the 3-D genotype mask: vary the geometry of the other axes, they must not matter
+        extra = [(), (3, 2), (7, 2)][(n + c + p) % 3] if n >= 1 and c >= 1 else ()
+        z = common.zarr_like((n,) + extra, (c,) + tuple(max(1, e - 1) for e in extra))
+    except Exception:  # noqa: BLE001  (zarr refuses the geometry: n = 0 or c = 0)
+        z = types.SimpleNamespace(chunks=(c,), shape=(n,), nchunks=(-(-n // c) if c else 0))
     try:
         ps = core.chunk_aligned_slices(z, p, max_chunks=m)
     except (ValueError, ZeroDivisionError):
